@@ -75,6 +75,8 @@ func c11Gen(tier string, seed int64) []core.Case {
 	for _, sp := range []int{3, 7, 997} {
 		add("paillier-small-prime", fmt.Sprint(sp), 2, core.P{"sp": sp, "bits": tierN(tier, 512, 1024)})
 	}
+	// every odd prime below 1000 (the bound of the verifier's trial division), one modulus each
+	add("paillier-small-prime", "every-prime-below-1000", 6, core.P{"sp": 0, "bits": 512})
 	add("paillier-gcd", "p|q-1", 3, core.P{"bits": tierN(tier, 256, 512)})
 	for _, fam := range []string{"prime", "even", "P^2", "P=1mod4", "three-primes", "P=Q-swapped-roles"} {
 		add("mod-bad-modulus", fam, 4, core.P{"fam": fam, "bits": tierN(tier, 512, 1024)})
@@ -202,6 +204,40 @@ func c11Run(c core.Case, env *core.Env) core.Result {
 			})
 		}
 	case "paillier-small-prime":
+		if c.P.Int("sp") == 0 {
+			pub := crypto.ScalarBaseMult(tss.S256(), big.NewInt(99))
+			k := big.NewInt(5)
+			for v := int64(3); v < 1000; v += 2 {
+				sp := big.NewInt(v)
+				if !sp.ProbablyPrime(20) {
+					continue
+				}
+				var Pp, N, phi *big.Int
+				for {
+					Pp, _ = rand.Prime(rand.Reader, 512-sp.BitLen())
+					N = new(big.Int).Mul(sp, Pp)
+					phi = new(big.Int).Mul(new(big.Int).Sub(sp, big1), new(big.Int).Sub(Pp, big1))
+					if N.BitLen() == 512 && new(big.Int).GCD(nil, nil, N, phi).Cmp(big1) == 0 {
+						break
+					}
+				}
+				sk := &paillier.PrivateKey{PublicKey: paillier.PublicKey{N: N}, PhiN: phi, LambdaN: phi, P: sp, Q: Pp}
+				pf := sk.Proof(k, pub)
+				complete := true
+				for i, x := range paillier.GenerateXs(paillier.ProofIters, k, N, pub) {
+					if new(big.Int).Exp(pf[i], N, N).Cmp(new(big.Int).Mod(x, N)) != 0 {
+						complete = false
+					}
+				}
+				if !complete {
+					continue
+				}
+				r.Count("complete_transcripts", 1)
+				r.AddSet("small_primes_tried", fmt.Sprint(v))
+				rejected(fmt.Sprintf("paillier key proof for N = %d * P'", v), func() bool { ok, err := pf.Verify(N, k, pub); return ok && err == nil })
+			}
+			break
+		}
 		sp := big.NewInt(int64(c.P.Int("sp")))
 		bits := c.P.Int("bits")
 		var Pp *big.Int
